@@ -522,6 +522,53 @@ def body_stmts(e):
     return [{"k": "Expr", "e": e, "tail": True}] if e is not None else []
 
 
+def for_loops(body):
+    """[(iterated expression, item pattern, loop body expression, outer node)] for every `for pat in expr { body }`"""
+    out = []
+    for m in walk_k(body, "Match"):
+        if m.get("src") != "ForLoopDesugar" or not m.get("arms"):
+            continue
+        it = unwrap(m["scrut"])
+        if isinstance(it, dict) and it.get("k") == "Call" and it.get("args"):
+            it = it["args"][0]
+        lp = unwrap(m["arms"][0]["body"])
+        if not isinstance(lp, dict) or lp.get("k") != "Loop":
+            continue
+        inner = None
+        for x in walk_k(lp["body"], "Match"):
+            if x.get("src") == "ForLoopDesugar":
+                inner = x
+                break
+        if inner is None:
+            continue
+        some = [a for a in inner["arms"] if (pat_variant(a["pat"]) or "").endswith("Some")]
+        if not some:
+            continue
+        pat = some[0]["pat"]["pats"][0] if some[0]["pat"].get("pats") else some[0]["pat"]
+        out.append((it, pat, some[0]["body"], m))
+    return out
+
+
+def let_init(body, e):
+    """if `e` is a local bound by exactly one `let` (plain binding) in `body`, the initialiser; else None"""
+    pl = path_local(e)
+    if not pl:
+        return None
+    hits = [l for l in walk_k(body, "Let") if l.get("init") is not None and l["pat"].get("k") == "Binding" and l["pat"].get("lid") == pl[1]]
+    return hits[0] if len(hits) == 1 else None
+
+
+def subst_local(node, lid, repl):
+    """copy of `node` with every read of local `lid` replaced by the expression `repl`"""
+    if isinstance(node, list):
+        return [subst_local(x, lid, repl) for x in node]
+    if not isinstance(node, dict):
+        return node
+    if node.get("k") == "Path" and node.get("res", {}).get("lid") == lid and "local" in node.get("res", {}):
+        return dict(repl, subst_of=node["res"]["local"])
+    return {k: (subst_local(v, lid, repl) if isinstance(v, (dict, list)) and k not in ("span", "res", "callee") else v) for k, v in node.items()}
+
+
 def normalise(node):
     """Canonical control-flow shapes, so that a rule sees the same tree whichever of the equivalent spellings the
     source uses:
@@ -548,6 +595,18 @@ def normalise(node):
             return {"k": "Match", "span": node["span"], "ty": node.get("ty"), "id": node.get("id"), "src": "IfLet", "scrut": cu["init"],
                     "arms": [{"span": cu["pat"].get("span", node["span"]), "pat": cu["pat"], "guard": None, "body": node["then"]},
                              {"span": els.get("span", node["span"]), "pat": {"k": "Wild", "span": node["span"], "ty": cu["pat"].get("ty")}, "guard": None, "body": els}]}
+    if k == "Match" and node.get("src") not in ("TryDesugar", "ForLoopDesugar", "AwaitDesugar") and len(node.get("arms", [])) == 2:
+        # `match flag { true => A, false => B }` -> `if flag { A } else { B }`   (src = "MatchBool")
+        def blit(a):
+            p = a["pat"]
+            if a.get("guard") is None and p.get("k") == "PLit" and isinstance(p.get("e"), dict) and p["e"].get("lit") == "bool":
+                return p["e"].get("v")
+            return None
+        a0, a1 = node["arms"]
+        b0, b1 = blit(a0), blit(a1)
+        if b0 is not None and (b1 is not None or (a1.get("guard") is None and a1["pat"].get("k") == "Wild")) and b0 != b1:
+            t, e = (a0, a1) if b0 is True else (a1, a0)
+            return {"k": "If", "span": node["span"], "ty": node.get("ty"), "id": node.get("id"), "cond": node["scrut"], "then": t["body"], "els": e["body"], "src": "MatchBool"}
     return node
 
 
@@ -645,7 +704,17 @@ class Facts:
                     args = ([node["recv"]] if k == "MethodCall" else []) + list(node.get("args", []))
                     stmts = []
                     for p_, a_ in zip(params, args):
-                        stmts.append({"k": "Let", "span": node["span"], "pat": p_, "init": a_, "inl_param": True})
+                        # a place-like argument (`self.row_index`, `&mut self.col_index`, `buf`, a literal) is substituted
+                        # for the parameter, so that rules reading field chains see through the helper; anything
+                        # else is bound by a `let`
+                        core_ = a_
+                        while isinstance(core_, dict) and core_.get("k") in ("AddrOf", "DropTemps", "Use", "Type") or (isinstance(core_, dict) and core_.get("k") == "Unary" and core_.get("op") == "*"):
+                            core_ = core_["e"]
+                        place = isinstance(core_, dict) and (core_.get("k") == "Lit" or field_chain(core_) is not None)
+                        if place and p_.get("k") == "Binding" and not p_.get("sub"):
+                            body = subst_local(body, p_["lid"], a_)
+                        else:
+                            stmts.append({"k": "Let", "span": node["span"], "pat": p_, "init": a_, "inl_param": True})
                     return {"k": "BlockExpr", "span": node["span"], "ty": node.get("ty"), "inlined": c,
                             "block": {"k": "Block", "span": node["span"], "stmts": stmts, "expr": body}}
             return node
